@@ -75,9 +75,15 @@ const (
 
 // Outcome is a scripted reaction to one attempt of a marked call.
 type Outcome struct {
-	Kind  string `json:"kind"` // ok | exc | drop | reset | truncate | hold
+	Kind  string `json:"kind"` // ok | exc | drop | reset | truncate | hold | junk (multi: executed, but the response's cellblock carries trailing bytes)
 	Class string `json:"class,omitempty"`
 	Stack string `json:"stack,omitempty"`
+}
+
+// MetaRowEdit: see Cluster.MetaRowEdit.
+type MetaRowEdit struct {
+	RowKey []byte
+	Server []byte
 }
 
 // Exec is one request (or multi action) as seen by a server.
@@ -165,6 +171,12 @@ type Cluster struct {
 	// MetaCorrupt: the next hbase:meta answers carry these bytes as the info:regioninfo value (one
 	// entry per answer that has rows)
 	MetaCorrupt [][]byte
+	// JunkSent counts the multi-responses sent with trailing bytes behind their cellblock.
+	JunkSent int
+	// MetaRowEdit: the next hbase:meta answers are altered cell by cell (one entry per answer):
+	// RowKey (non-nil) replaces the row key of every cell of the answer's rows, Server (non-nil)
+	// the value of info:server. The info:regioninfo value stays well-formed.
+	MetaRowEdit []MetaRowEdit
 	// ZKMetaAddr, if set, is what ZooKeeper says about hbase:meta (stale: the server named there
 	// answers NotServingRegion for it)
 	ZKMetaAddr string
